@@ -142,13 +142,11 @@ fn eval_unary_expr(
     node: dom::XmlNode,
     context: &mut model::Context,
 ) -> error::Result<model::Value> {
-    let value = eval_union_expr(uni.value(), node.clone(), context)?;
-    let inv = uni.inv().len() % 2;
-    if inv == 0 {
-        Ok(value)
-    } else {
-        Ok(-value)
+    let mut value = eval_union_expr(uni.value(), node.clone(), context)?;
+    for _ in uni.inv() {
+        value = -value;
     }
+    Ok(value)
 }
 
 fn eval_union_expr(
